@@ -482,9 +482,45 @@ fn v1_pair() -> Option<(Key<paseto_v1::core::V1, PkePublic>, Key<paseto_v1::core
 }
 backend!(paseto_v1::core::V1, 48, 256, v1_pair());
 
+/// C04: the operation on byte strings of the solver-identified length must not panic
+/// (contents: zeros, ones, a counter pattern and seeded pseudo-random bytes)
+fn arbitrary_len<V: Backend>(a: &Value) -> (bool, String) {
+    let n = num(a, "n", 0) as usize;
+    let op = text(a, "op").to_string();
+    let mut seed = num(a, "seed", 1).wrapping_mul(0x9E3779B97F4A7C15) | 1;
+    let mut contents: Vec<Vec<u8>> = vec![vec![0; n], vec![0xff; n], (0..n).map(|i| i as u8).collect()];
+    for _ in 0..40 {
+        contents.push((0..n).map(|_| { seed ^= seed << 13; seed ^= seed >> 7; seed ^= seed << 17; seed as u8 }).collect());
+    }
+    let kb = [7u8; 32];
+    for c in contents {
+        let r = catch_unwind(AssertUnwindSafe(|| {
+            let mut p = c.clone();
+            match op.as_str() {
+                "local" => { let k = <V as HasKey<Local>>::decode(&kb).unwrap(); let _ = <V as paseto_core::version::UnsealingVersion<Local>>::unseal(&k, "", &mut p, b"f", b""); }
+                "public" => { if let Ok(sk) = SecretKey::<V>::random() { let pk = sk.public_key(); let t = format!("{}", pk); let _ = t; let pkb = pk.expose_key().as_raw_bytes().to_vec(); let k = <V as HasKey<Public>>::decode(&pkb).unwrap(); let _ = <V as paseto_core::version::UnsealingVersion<Public>>::unseal(&k, "", &mut p, b"f", b""); } }
+                "pie" => { let k = <V as HasKey<Local>>::decode(&kb).unwrap(); let _ = V::pie_unwrap_key(".local-wrap.pie.", &k, &mut p); }
+                "pw" => { let _ = V::get_params(&p); let _ = V::pw_unwrap_key(".local-pw.", b"x", &mut p); }
+                "pke" => { if let Some((_, sk)) = V::pke_pair() { let s = format!("x"); let _ = s; let _ = <V as PkeUnsealingVersion>::unseal_key(&sk_inner(&sk), p.into_boxed_slice()); } }
+                _ => {}
+            }
+        }));
+        if r.is_err() {
+            return (true, format!("CONDITION panic\n{op} on a {n}-byte input panicked"));
+        }
+    }
+    (false, "no panic".into())
+}
+fn sk_inner<V: HasKey<PkeSecret>>(k: &Key<V, PkeSecret>) -> <V as HasKey<PkeSecret>>::Key {
+    <V as HasKey<PkeSecret>>::decode(k.expose_key().as_raw_bytes()).unwrap()
+}
+
 fn dispatch<V: Backend>(recipe: &str, a: &Value, vh: &str, kh: &str) -> (bool, String) {
     let _ = kh;
     match recipe {
+        "arbitrary_len" => arbitrary_len::<V>(a),
+        #[cfg(getrandom_backend = "custom")]
+        "rng_fail" => rng_fail::<V>(a),
         "local_roundtrip" => local_roundtrip::<V>(a),
         "public_roundtrip" => public_roundtrip::<V>(a),
         "local_tamper" => local_tamper::<V>(a, &format!("{vh}.local.")),
@@ -497,6 +533,56 @@ fn dispatch<V: Backend>(recipe: &str, a: &Value, vh: &str, kh: &str) -> (bool, S
         }
         "pke" => pke::<V>(a),
         _ => (false, format!("unknown recipe {recipe}")),
+    }
+}
+
+#[cfg(getrandom_backend = "custom")]
+mod rng {
+    use std::sync::atomic::{AtomicUsize, Ordering};
+    pub static DRAWS: AtomicUsize = AtomicUsize::new(0);
+    pub static FAIL_AT: AtomicUsize = AtomicUsize::new(usize::MAX);
+    #[unsafe(no_mangle)]
+    unsafe extern "Rust" fn __getrandom_v03_custom(dest: *mut u8, len: usize) -> Result<(), getrandom::Error> {
+        let d = DRAWS.fetch_add(1, Ordering::SeqCst);
+        if d == FAIL_AT.load(Ordering::SeqCst) {
+            return Err(getrandom::Error::UNSUPPORTED);
+        }
+        let mut x = (d as u64 + 1).wrapping_mul(0x9E3779B97F4A7C15);
+        for i in 0..len {
+            x ^= x << 13;
+            x ^= x >> 7;
+            x ^= x << 17;
+            unsafe { *dest.add(i) = x as u8 };
+        }
+        Ok(())
+    }
+}
+/// C16: the OS random source fails at draw `at` of the operation; REPRODUCED if the operation still
+/// returns Ok (a token / blob / key produced from default or partially filled randomness)
+#[cfg(getrandom_backend = "custom")]
+fn rng_fail<V: Backend>(a: &Value) -> (bool, String) {
+    use std::sync::atomic::Ordering;
+    let at = num(a, "at", 0) as usize;
+    let op = text(a, "op").to_string();
+    let key = LocalKey::<V>::from([7u8; 32]);
+    let rc = if op == "pke" { V::pke_pair() } else { None };
+    rng::FAIL_AT.store(rng::DRAWS.load(Ordering::SeqCst) + at, Ordering::SeqCst);
+    let before = rng::DRAWS.load(Ordering::SeqCst);
+    let ok = match op.as_str() {
+        "local_seal" => UnsealedToken::<V, Local, Raw>::new(Raw(vec![1])).encrypt(&key).is_ok(),
+        "random_local" => LocalKey::<V>::random().is_ok(),
+        "random_secret" => SecretKey::<V>::random().is_ok(),
+        "pie" => LocalKey::<V>::from([9u8; 32]).wrap_pie(&key).is_ok(),
+        "pw" => LocalKey::<V>::from([9u8; 32]).password_wrap(b"pw").is_ok(),
+        "pke" => match rc { Some((pk, _)) => LocalKey::<V>::from([9u8; 32]).seal(&pk).is_ok(), None => false },
+        _ => false,
+    };
+    let made = rng::DRAWS.load(Ordering::SeqCst) - before;
+    rng::FAIL_AT.store(usize::MAX, Ordering::SeqCst);
+    if ok && made > at {
+        (true, format!("CONDITION rng_failure_ignored\n{op}: draw {at} failed but the operation returned Ok"))
+    } else {
+        (false, format!("{op}: returned {} after {made} draws", if ok { "Ok (failing draw not reached)" } else { "Err" }))
     }
 }
 
@@ -541,6 +627,59 @@ fn parse_any(a: &Value) -> (bool, String) {
     (false, "no panic".into())
 }
 
+/// C03/C07: a spec-conforming k3.local-pw blob (AES-256-CTR with a 128-bit big-endian counter, as
+/// OpenSSL/aws-lc implement it) whose 16-byte CTR nonce ends in ff..ff, built here from the real
+/// pbkdf2/hmac/sha2/aes/ctr crates, must unwrap to the wrapped key on every v3 backend.
+fn ctr_pbkw(a: &Value) -> (bool, String) {
+    use aes::cipher::{KeyIvInit, StreamCipher};
+    use hmac::Mac;
+    use sha2::Digest;
+    let key: Vec<u8> = (0u8..32).collect();
+    let pass = b"correct horse";
+    let salt = [0x5au8; 32];
+    let iters: u32 = 1000;
+    let mut nonce = [0xffu8; 16];
+    let hi = bytes(a, "iv_hi");
+    for (i, b) in hi.iter().take(8).enumerate() {
+        nonce[i] = *b;
+    }
+    let k = pbkdf2::pbkdf2_array::<hmac::Hmac<sha2::Sha384>, 32>(pass, &salt, iters).unwrap();
+    let mut h = sha2::Sha384::new();
+    h.update([0xFF]);
+    h.update(k);
+    let ek = h.finalize();
+    let mut h = sha2::Sha384::new();
+    h.update([0xFE]);
+    h.update(k);
+    let ak = h.finalize();
+    let mut edk = key.clone();
+    ctr::Ctr128BE::<aes::Aes256>::new(ek[..32].into(), (&nonce).into()).apply_keystream(&mut edk);
+    let mut mac = hmac::Hmac::<sha2::Sha384>::new_from_slice(&ak).unwrap();
+    mac.update(b"k3");
+    mac.update(b".local-pw.");
+    mac.update(&salt);
+    mac.update(&iters.to_be_bytes());
+    mac.update(&nonce);
+    mac.update(&edk);
+    let tag = mac.finalize().into_bytes();
+    let mut blob = vec![];
+    blob.extend_from_slice(&salt);
+    blob.extend_from_slice(&iters.to_be_bytes());
+    blob.extend_from_slice(&nonce);
+    blob.extend_from_slice(&edk);
+    blob.extend_from_slice(&tag);
+    let mut b1 = blob.clone();
+    let mut b2 = blob.clone();
+    let r1 = <paseto_v3::core::V3 as PwWrapVersion>::pw_unwrap_key(".local-pw.", pass, &mut b1).map(|x| x.to_vec());
+    let r2 = <paseto_v3_aws_lc::core::V3 as PwWrapVersion>::pw_unwrap_key(".local-pw.", pass, &mut b2).map(|x| x.to_vec());
+    let s = format!("k3.local-pw.{}", b64e(&blob));
+    match (r1, r2) {
+        (Ok(x), Ok(y)) if x == key && y == key => (false, "both v3 backends unwrap the spec-conforming blob to the wrapped key".into()),
+        (Ok(x), Ok(y)) => (true, format!("CONDITION ctr64\nspec-conforming {s}\n wrapped key   {:02x?}\n paseto-v3     {:02x?}\n paseto-v3-aws {:02x?}", key, x, y)),
+        (x, y) => (true, format!("CONDITION ctr64\nspec-conforming {s}: paseto-v3 {:?}, aws-lc {:?}", x.is_ok(), y.is_ok())),
+    }
+}
+
 fn main() {
     let recipe = std::env::args().nth(1).unwrap_or_default();
     let mut inp = String::new();
@@ -550,6 +689,9 @@ fn main() {
     let r = catch_unwind(AssertUnwindSafe(|| {
         if recipe == "parse_any" {
             return parse_any(&a);
+        }
+        if recipe == "ctr_pbkw" {
+            return ctr_pbkw(&a);
         }
         match text(&a, "backend") {
             "v1" => dispatch::<paseto_v1::core::V1>(&recipe, &a, "v1", "k1"),
